@@ -112,7 +112,7 @@ class BuiltinBroachingCodeGenerator(BroachingCodeGenerator):
     def _gen_constant_element(self, state: GenState, element: ConstantElement) -> AST:
         expr = get_literal_expr(element.value)
         if expr is not None:
-            return ast.parse(expr)
+            return ast.parse(expr, mode="eval").body
 
         name = state.register_next_id("constant", element.value)
         return ast.Name(id=name, ctx=ast.Load())
